@@ -1,6 +1,7 @@
 import FlexModel.Proto
 import FlexModel.Geo.LocTDriver
 import FlexModel.Geo.Router
+import FlexModel.Geo.NetFlood
 namespace FlexModel.Geo
 open FlexModel.Proto
 
@@ -17,6 +18,8 @@ def Act.str : Act → String
   | .arm k ms => s!"arm {k.1} {k.2} {ms}"
   | .cancel k => s!"cancel {k.1} {k.2}"
   | .reply to => s!"reply {to}"
+  | .lsSend a => s!"lssend {a}"
+  | .origGuc a => s!"origguc {a}"
 
 def outStr (s : RSt) (acts : List Act) : String :=
   (match acts with | [] => "-" | l => " | ".intercalate (l.map Act.str)) ++ " # " ++
@@ -30,6 +33,13 @@ structure RStation where
 structure RDrvSt where
   cur : Nat := 0
   sts : List (Nat × RStation) := []
+  /-- network mode (`n…` operations): the network at the start, the schedule so far, the network now and the trace so far.
+  `hn = netRunH n0 ops` and `tr = netTrace n0.toNet ops` by construction; `ncount` / `nhyp` / `nhops` recompute from
+  `n0` and `ops` with the definitions the theorems of `Props.C06` are about -/
+  n0 : HNet := { nodes := [], air := [] }
+  ops : List NetOp := []
+  hn : HNet := { nodes := [], air := [] }
+  tr : List Ev := []
 
 def RDrvSt.get (d : RDrvSt) : RStation := ((d.sts.find? (·.1 == d.cur)).map (·.2)).getD {}
 def RDrvSt.set (d : RDrvSt) (x : RStation) : RDrvSt :=
@@ -38,8 +48,96 @@ def RDrvSt.set (d : RDrvSt) (x : RStation) : RDrvSt :=
 def bool? : String → Option Bool
   | "0" => some false | "1" => some true | _ => none
 
+def pkt? (tk : List String) : Option Pkt :=
+  match tk with
+  | [k, rhl, mhl, so, tst, lat, lon, sn, de, dt, dla, dlo, scf, body] =>
+    match kind? k, [rhl, mhl, so, tst, sn, de, dt, body].mapM nat?, [lat, lon, dla, dlo].mapM int?, bool? scf with
+    | some k, some [rhl, mhl, so, tst, sn, de, dt, body], some [lat, lon, dla, dlo], some scf =>
+      some { kind := k, rhl := rhl, mhl := mhl, so := so, soPV := { time := tst, lat := lat, lon := lon }, sn := sn, de := de,
+             dePV := { time := dt, lat := dla, lon := dlo }, scf := scf, body := body }
+    | _, _, _, _ => none
+  | _ => none
+
+def env? (tk : List String) : Option Env :=
+  match tk with
+  | [xin, xbig, xpdr, xsin, xgr, xms] =>
+    match [xin, xbig, xpdr, xsin, xgr].mapM bool?, nat? xms with
+    | some [xin, xbig, xpdr, xsin, xgr], some xms =>
+      some { inside := xin, areaTooBig := xbig, pdrExceeded := xpdr, senderInside := xsin, greedy := xgr, cbfMs := xms }
+    | _, _ => none
+  | _ => none
+
+/-- one medium operation in network mode: the event (`netEv`), then the step (`netStepH`); output = station, delivered
+frame, actions + buffer keys of the station afterwards, frames put on the air as `dest:hops`, size of the air, and the
+station's transmissions / deliveries of the packet identity `(a, sn)` so far (`txCount` / `dlvCount` on the trace) -/
+def netOp (d : RDrvSt) (op : NetOp) (a sn : Nat) (what : String) : RDrvSt × String :=
+  let ev := netEv d.hn.toNet op
+  let hn' := netStepH d.hn op
+  let tr' := match ev with | some e => d.tr ++ [e] | none => d.tr
+  let d' := { d with ops := d.ops ++ [op], hn := hn', tr := tr' }
+  match ev with
+  | none => (d', s!"none | air {hn'.air.length}")
+  | some e =>
+    let st := ((hn'.nodes[e.st]?).map (·.s)).getD {}
+    let newAir := hn'.air.drop (hn'.air.length - (sends e.acts).length * (match op with
+      | .deliver _ _ _ rcv => rcv.length | .fire _ _ rcv => rcv.length | .lose _ => 0))
+    (d', s!"st {e.st} | {what} | {outStr st e.acts} | new " ++ " ".intercalate (newAir.map fun f => s!"{f.1}:{f.2.2}") ++
+      s!" | air {hn'.air.length} | tx {txCount a sn e.st tr'} dl {dlvCount a sn e.st tr'}")
+
 def routerStep (d : RDrvSt) (tk : List String) : RDrvSt × String :=
   match tk with
+  | ["nreset"] => ({ d with n0 := { nodes := [], air := [] }, ops := [], hn := { nodes := [], air := [] }, tr := [] }, "ok")
+  | ["nnode", a, l, n, cbf] =>
+    match d.ops, nat? a, nat? l, nat? n, bool? cbf with
+    | [], some a, some l, some n, some cbf =>
+      let nd : Node := { c := { loct := { self := a, lifetimeMs := l, dplLen := n }, cbf := cbf }, s := {} }
+      let x : HNet := { d.n0 with nodes := d.n0.nodes ++ [nd] }
+      ({ d with n0 := x, hn := x }, "ok")
+    | _, _, _, _, _ => (d, "bad-op")
+  | "nair" :: dest :: rest =>
+    match d.ops, nat? dest, pkt? rest with
+    | [], some dest, some p =>
+      let x : HNet := { d.n0 with air := d.n0.air ++ [(dest, p, 0)] }
+      ({ d with n0 := x, hn := x }, "ok")
+    | _, _, _ => (d, "bad-op")
+  | "nrx" :: j :: xin :: xbig :: xpdr :: xsin :: xgr :: xms :: now :: rcv =>
+    match nat? j, env? [xin, xbig, xpdr, xsin, xgr, xms], nat? now, rcv.mapM nat? with
+    | some j, some env, some now, some rcv =>
+      match d.hn.air[j]? with
+      | some (_, p, h) => netOp d (.deliver j env now rcv) p.so p.sn s!"rx {p.str} hops {h}"
+      | none => netOp d (.deliver j env now rcv) 0 0 "rx -"
+    | _, _, _, _ => (d, "bad-op")
+  | "nfire" :: i :: so :: sn :: rcv =>
+    match nat? i, nat? so, nat? sn, rcv.mapM nat? with
+    | some i, some so, some sn, some rcv => netOp d (.fire i (so, sn) rcv) so sn s!"fire {so} {sn}"
+    | _, _, _, _ => (d, "bad-op")
+  | ["nlose", j] =>
+    match nat? j with
+    | some j => netOp d (.lose j) 0 0 "lose"
+    | none => (d, "bad-op")
+  | ["ncount", a, sn] =>
+    match nat? a, nat? sn with
+    | some a, some sn =>
+      let tr := netTrace d.n0.toNet d.ops
+      let ix := List.range d.n0.nodes.length
+      (d, "tx " ++ joinNat (ix.map fun i => txCount a sn i tr) ++ " | dl " ++ joinNat (ix.map fun i => dlvCount a sn i tr) ++
+        s!" | total {totalTx a sn tr}")
+    | _, _ => (d, "bad-op")
+  | ["nhyp", a, sn, b, lim] =>
+    match nat? a, nat? sn, nat? b, nat? lim with
+    | some a, some sn, some b, some lim => (d, b01 (floodHypB a sn b lim d.n0.toNet d.ops))
+    | _, _, _, _ => (d, "bad-op")
+  | ["nhops", a, sn, h] =>
+    match nat? a, nat? sn, nat? h with
+    | some a, some sn, some h =>
+      let x := netRunH d.n0 d.ops
+      let ok := x.air.all (fun f => !(f.2.1.so == a && f.2.1.sn == sn) || f.2.1.rhl + f.2.2 == h)
+      let okb := (List.range x.nodes.length).all fun i =>
+        match x.nodes[i]? with
+        | some nd => nd.s.buf.all (fun y => !(y.2.so == a && y.2.sn == sn) || y.2.rhl + hopOf x.bufH i y.1 == h)
+        | none => true
+      (d, b01 (ok && okb))
+    | _, _, _ => (d, "bad-op")
   | ["sel", i] =>
     match nat? i with
     | some i => ({ d with cur := i }, "ok")
@@ -65,6 +163,13 @@ def routerStep (d : RDrvSt) (tk : List String) : RDrvSt × String :=
     | some so, some sn =>
       let x := d.get
       let r := fire x.s (so, sn)
+      (d.set { x with s := r.1 }, outStr r.1 r.2)
+    | _, _ => (d, "bad-op")
+  | ["lsreq", a, req] =>
+    match nat? a, bool? req with
+    | some a, some req =>
+      let x := d.get
+      let r := lsRequest x.s a req
       (d.set { x with s := r.1 }, outStr r.1 r.2)
     | _, _ => (d, "bad-op")
   | ["table"] => (d, Table.str d.get.s.t)
